@@ -212,6 +212,8 @@ int main(int argc, char **argv) {
     getPentagons(0, PENT0);
     int npoly = quick ? 260 : 4000; int maxcand = quick ? 1500 : 6000;
     for (int i = 0; i < npoly; i++) { Poly P; if (gen_poly(&P, i, quick)) continue; fill_event(&P, maxcand); }
+    /* polygons made from cell boundaries: edges and vertices coincide with those of the cells being tested (touching contacts) */
+    g_force_kind = 9; for (int i = 0; i < (quick ? 160 : 1500); i++) { Poly P; if (gen_poly(&P, i, quick)) continue; fill_event(&P, maxcand); } g_force_kind = -1;
     for (int ares = 0; ares <= 14; ares++) for (int tres = ares + 1; tres <= 15 && tres <= ares + 5; tres++) for (int k = 0; k < (quick ? 3 : 15); k++) { Poly P; if (gen_corner_poly(&P, ares, tres, k % 3)) continue; fill_event(&P, maxcand); }
     fprintf(stderr, "events=%ld candidates=%ld ambiguous-centres=%ld\n", n_ev, n_cand, n_amb);
     vt_close(); return 0;
